@@ -133,6 +133,13 @@ Theorem C09_sum_conserved : forall (red : list Q -> Q) labels col,
 Proof. exact sum_conserved. Qed.
 Print Assumptions C09_sum_conserved.
 
+Theorem C09_filter_sum_conserved : forall (red : list Q -> Q) wred labels coords data centres center drop oc od,
+  (forall l, red l == Qsum l) ->
+  block_reduce red wred labels coords data None centres center drop = Some (oc, od) ->
+  Forall2 (fun col out => Qsum out == Qsum col) data od.
+Proof. exact block_reduce_sum_conserved. Qed.
+Print Assumptions C09_filter_sum_conserved.
+
 (** the executable sum used by the correspondence check is such a reduction *)
 Theorem C09_qsum_is_sum : forall l, qsum l == Qsum l.
 Proof. exact qsum_Qsum. Qed.
